@@ -150,6 +150,15 @@ pub fn run(cfg: &RunCfg, rep: &mut Report) {
                 for f in &r.found {
                     if f.script_sig == p.script_sig && f.witness == p.witness {
                         found_orig = true;
+                    } else if case.kind == DescKind::Tr
+                        && f.witness.len() == p.witness.len()
+                        && f.witness.len() >= 2
+                        && f.witness[..f.witness.len() - 1] == p.witness[..p.witness.len() - 1]
+                    {
+                        // the same leaf script occurs twice in the tree: only the Merkle proof differs.
+                        // That is a property of the descriptor the user wrote (a duplicated leaf), not of
+                        // the satisfaction the library chose: counted, not judged.
+                        rep.count("control(duplicate tap leaf): same stack and script, other control block");
                     } else if other.is_none() {
                         other = Some(f.clone());
                     }
